@@ -45,8 +45,8 @@ from ..tlc import expect_clean, expect_violation, run_tlc
 
 META = {
     "level": "model_checking",
-    "level_text": "TLC checks, for every command text of up to 4 (thorough: also 5) lines over the "
-                  "line alphabet and every input / output structure of depth <= 2, that the "
+    "level_text": "TLC checks, for every command text of up to 4 lines over the line alphabet (9 line kinds "
+                  "in the quick tier, 15 in the thorough one) and every input / output structure of depth <= 2, that the "
                   "here-document terminator is no line of the text, that a POSIX shell reads back "
                   "exactly the prepared text, that the prepared text is the dedented text under the "
                   "default shell unless it starts with a shebang, that inputs are staged before and "
@@ -84,6 +84,19 @@ PLAIN = ["echo hello", "ls -l /", ": ok", "x=1", "# a comment", "echo 'a b'  c",
 SPECIAL = ['echo "$HOME" `echo hi` \\\\', "echo $((1+2)) \\$x", 'printf "%s\\n" "$@"', "echo \\`x\\` $0 ${y:-z}",
            "awk '$3 == \"blue\"' /dev/null | wc -l", "echo \\", "echo $$ $? $!", "echo '\\n' \"\\t\" \\\\"]
 SHEBANGS = ["#!/bin/sh", "#!/usr/bin/env python", "#!/bin/cat", "#! /bin/sh -e", "#!/usr/bin/env bash"]
+
+
+
+def _viol(ctx: Ctx, what: str, replay, key=None) -> None:
+    """ctx.violation, capped: a broken tree fails thousands of cases, thirty replay files are enough."""
+    if key is not None:
+        seen = ctx.__dict__.setdefault("_keys_reported", set())
+        if key in seen:
+            return                      # one report per named deviation
+        seen.add(key)
+        ctx.violation(what, replay, key=key)
+    elif sum(1 for v in ctx.violations if v["key"] is None) < 30:
+        ctx.violation(what, replay, key=key)
 
 
 def api():
@@ -222,6 +235,7 @@ class CmdChecker:
         if not self.dsh_lines[0].startswith("#!"):
             raise MachineryError("DEFAULT_SHELL does not start with a shebang: Script.tla's DSH shape is off")
         self.stats = {"cmd_cases": 0, "strip_inside_line": 0, "max_candidate": 0}
+        self.abs_eof = Abs("EOF")
 
     def real(self, text: str, prefix: str):
         """(prepared, eof, wrapped, raw eof, raw wrapped) from the real functions."""
@@ -253,27 +267,27 @@ class CmdChecker:
 
     def check_model_case(self, c: dict, contents: dict, source: str) -> tuple:
         """spec -> code for one enumerated command.  Returns (text, prepared, wrapped, raw wrapped)."""
-        ctx, a = self.ctx, Abs("EOF")
+        ctx, a = self.ctx, self.abs_eof
         text = render(c["cmd"], "EOF", contents)
         want = render(c["txt"], "EOF", contents)
         rep = {"kind": "cmd", "text": text, "prefix": "EOF", "source": source}
         try:
             prep, eof, wrapped, reof, rwrapped = self.real(text, "EOF")
         except Exception as e:  # noqa
-            ctx.violation(f"scripting functions raised {type(e).__name__}: {e} on {text!r}", rep)
+            _viol(ctx, f"scripting functions raised {type(e).__name__}: {e} on {text!r}", rep)
             return text, None, None, None
         if prep != want:
-            ctx.violation(f"prepare_command({text!r}) = {prep!r}, Script.tla: {want!r}", rep)
+            _viol(ctx, f"prepare_command({text!r}) = {prep!r}, Script.tla: {want!r}", rep)
         # which free candidate is chosen is as-built detail (the model takes the least one): a different
         # choice is drift, not a violation; the laws are judged on the real wrapper right below
         if eof != a.name(c["eof"]) or reof != a.name(c["raweof"]):
             self.stats["terminator_choice_drift"] = self.stats.get("terminator_choice_drift", 0) + 1
         bad = self.heredoc_law(a, prep, eof, wrapped)
         if bad:
-            ctx.violation(f"get_wrapped_command({prep!r}): {bad}", rep)
+            _viol(ctx, f"get_wrapped_command({prep!r}): {bad}", rep)
         bad = self.heredoc_law(a, text, reof, rwrapped)
         if bad:
-            ctx.violation(f"get_wrapped_command({text!r}): {bad}", rep)
+            _viol(ctx, f"get_wrapped_command({text!r}): {bad}", rep)
         self.stats["cmd_cases"] += 1
         self.stats["strip_inside_line"] += c["strip"]
         self.stats["max_candidate"] = max(self.stats["max_candidate"], c["eof"], c["raweof"])
@@ -546,7 +560,7 @@ class IoLab:
             expr = self.S.script(command, inputs=pins, outputs=pouts, tempdir=td)
             result = self.scheduler().run(expr)
         except Exception as e:  # noqa
-            ctx.violation(f"script() run raised {type(e).__name__}: {e}", rep)
+            _viol(ctx, f"script() run raised {type(e).__name__}: {e}", rep)
             return {}
         prepared = self.S.prepare_command(command)
         tree = w.unbuild(result)
@@ -554,13 +568,13 @@ class IoLab:
         # what the command made from the staged inputs
         for leaf_v in self._leaves_py(result):
             if isinstance(leaf_v, bytes) and leaf_v != (prepared + "\n").encode():
-                ctx.violation(f"stdout of the script is not the prepared command + newline: {leaf_v!r} vs "
+                _viol(ctx, f"stdout of the script is not the prepared command + newline: {leaf_v!r} vs "
                               f"{(prepared + chr(10)).encode()!r}", rep)
         for (kind, r), want in expect.items():
             p = Path(w.path(r), "z") if kind == K_RDIR else Path(w.path(r))
             got = p.read_text() if p.exists() else None
             if got != want:
-                ctx.violation(f"remote output p{r} holds {got!r}, the command made {want!r} "
+                _viol(ctx, f"remote output p{r} holds {got!r}, the command made {want!r} "
                               "(inputs not staged before / outputs not unstaged after the command)", rep)
         ctx.count_eval()
         ctx.count_impl_trace()
@@ -655,7 +669,7 @@ def judge(ctx: Ctx, cases: list, v: dict, iv: dict, skip=()):
             rep = {"kind": "cmd", "text": c["_text"], "prefix": c["_prefix"], "source": "generated"}
             for j, law in enumerate(CMD_LAWS):
                 if not ver[j]:
-                    ctx.violation(f"{law}: text {c['_text']!r} prefix {c['_prefix']!r} "
+                    _viol(ctx, f"{law}: text {c['_text']!r} prefix {c['_prefix']!r} "
                                   f"prepared {c['_prep']!r} terminator {c['_eof']!r}", rep)
             drift += 0 if ver[5] else 1
             if c["eof"] or c["reof"] or c["prep"][-len(c["cmd"]):] != c["cmd"]:
@@ -667,7 +681,7 @@ def judge(ctx: Ctx, cases: list, v: dict, iv: dict, skip=()):
                 if c["segs"] is None and j < 2:
                     continue
                 if not ver[j]:
-                    ctx.violation(f"{law}: inputs {json.dumps(c['ins'])} outputs {json.dumps(c['outs'])} "
+                    _viol(ctx, f"{law}: inputs {json.dumps(c['ins'])} outputs {json.dumps(c['outs'])} "
                                   f"parts {c['segs']} result {json.dumps(c['res'])}", rep)
             if c["segs"] is not None:
                 drift += 0 if ver[3] else 1
@@ -722,11 +736,11 @@ def run(ctx: Ctx) -> None:
     st.done("tlc_enumeration")
     # ---- 2. spec -> code: every enumerated command through the real functions -----------------
     sh = ShLab(ctx)
-    n_sh = ctx.pick(25, 400)
+    n_sh = ctx.pick(15, 150)
     sh_idx = set(rng.sample(range(len(cmd_cases)), min(n_sh, len(cmd_cases))))
     sh_runs = sh_printed = 0
     trace_batch: list = []
-    n_model_to_trace = ctx.pick(150, 1500)
+    n_model_to_trace = ctx.pick(100, 1500)
     tr_idx = set(rng.sample(range(len(cmd_cases)), min(n_model_to_trace, len(cmd_cases))))
     for i, c in enumerate(cmd_cases):
         exec_it = i in sh_idx
@@ -740,18 +754,18 @@ def run(ctx: Ctx) -> None:
                 sh_runs += 1
                 ctx.count_impl_trace()
                 if kept != (body + "\n").encode():
-                    ctx.violation(f"{shell} wrote {kept!r} to the temp file, the command is {body!r} (+ newline)",
+                    _viol(ctx, f"{shell} wrote {kept!r} to the temp file, the command is {body!r} (+ newline)",
                                   {"kind": "cmd", "text": text, "prefix": "EOF", "source": "sh"})
                 elif body.split("\n")[0] == "#!/bin/cat":
                     sh_printed += 1
                     if out != kept:
-                        ctx.violation(f"{shell} executed {out!r}, the command is {body!r}",
+                        _viol(ctx, f"{shell} executed {out!r}, the command is {body!r}",
                                       {"kind": "cmd", "text": text, "prefix": "EOF", "source": "sh"})
         if i in tr_idx:
             trace_batch.append(cc.record(text, "EOF"))
-    ctx.sample({"source": "tlc-exhaustive command", "text": render(cmd_cases[len(cmd_cases) // 3]["cmd"], "EOF",
-                                                                     pick_contents(rng, cc.dsh_lines)),
-                "model": cmd_cases[len(cmd_cases) // 3]})
+    mid = cmd_cases[len(cmd_cases) // 3]
+    ctx.sample({"source": "tlc-exhaustive command", "text": render(mid["cmd"], "EOF", pick_contents(rng, cc.dsh_lines)),
+                "model (lines as [indent, kind, n, special, trailing])": json.dumps(mid)})
 
     st.done("commands_on_real_functions")
     # ---- 3. spec -> code: every enumerated structure through script() / postprocess_script -----
@@ -763,12 +777,12 @@ def run(ctx: Ctx) -> None:
         except MachineryError:
             raise
         except Exception as e:  # noqa
-            ctx.violation(f"script() raised {type(e).__name__}: {e}", rep)
+            _viol(ctx, f"script() raised {type(e).__name__}: {e}", rep)
             continue
         ctx.count_eval()
         ctx.count_impl_trace()
         if res != c["res"]:
-            ctx.violation(f"result shape {json.dumps(res)} differs from Script.tla {json.dumps(c['res'])} "
+            _viol(ctx, f"result shape {json.dumps(res)} differs from Script.tla {json.dumps(c['res'])} "
                           f"for outputs {json.dumps(c['outs'])}", rep)
         if segs != c["segs"]:
             # the order among inputs / among outputs is as-built detail; the contract is judged by TLC
@@ -777,24 +791,25 @@ def run(ctx: Ctx) -> None:
                                 "res": res})
         if any(n["t"] // 100 in (K_STDOUT, K_STAGE, K_SDIR, K_FILE) for n in iter_leaves(c["outs"])):
             ctx.distinct(("io", c["ins"], c["outs"], c["td"]))
-    ctx.sample({"source": "tlc-exhaustive structure", "case": io_cases[len(io_cases) // 2]})
+    ctx.sample({"source": "tlc-exhaustive structure (leaf id = kind*100 + local*10 + remote)",
+                "case": json.dumps(io_cases[len(io_cases) // 2])})
 
     st.done("structures_on_real_script")
     # ---- 4. code -> spec: larger generated texts and structures --------------------------------
-    n_gen = ctx.pick(600, 6000)
+    n_gen = ctx.pick(300, 4000)
     for _ in range(n_gen):
         prefix = rng.choice(["EOF"] * 6 + ["END", "X_", "EOF1"])
         text = gen_text(rng, prefix)
         try:
             rec = cc.record(text, prefix)
         except Exception as e:  # noqa
-            ctx.violation(f"scripting functions raised {type(e).__name__}: {e} on {text!r}",
+            _viol(ctx, f"scripting functions raised {type(e).__name__}: {e} on {text!r}",
                           {"kind": "cmd", "text": text, "prefix": prefix, "source": "generated"})
             continue
         a = Abs(prefix)
         bad = cc.heredoc_law(a, rec["_prep"], rec["_eof"], rec["_wrapped"])
         if bad:
-            ctx.violation(f"get_wrapped_command({rec['_prep']!r}, eof_prefix={prefix!r}): {bad}",
+            _viol(ctx, f"get_wrapped_command({rec['_prep']!r}, eof_prefix={prefix!r}): {bad}",
                           {"kind": "cmd", "text": text, "prefix": prefix, "source": "generated"})
         trace_batch.append(rec)
     first_gen_io = len(trace_batch)
@@ -816,14 +831,14 @@ def run(ctx: Ctx) -> None:
         except MachineryError:
             raise
         except Exception as e:  # noqa
-            ctx.violation(f"script() raised {type(e).__name__}: {e}", {"kind": "io", "ins": ins, "outs": outs, "td": td})
+            _viol(ctx, f"script() raised {type(e).__name__}: {e}", {"kind": "io", "ins": ins, "outs": outs, "td": td})
             continue
         trace_batch.append({"kind": "io", "ins": ins, "outs": outs, "td": 1 if td else 0, "segs": segs, "res": res})
 
     st.done("generated_cases_recorded")
     # ---- 5. real sh on generated texts, real Scheduler on script() ----------------------------
     gen_cmds = [c for c in trace_batch if c["kind"] == "cmd" and c.get("_text") is not None and c["_prefix"] == "EOF"]
-    for c in rng.sample(gen_cmds, min(ctx.pick(25, 300), len(gen_cmds))):
+    for c in rng.sample(gen_cmds, min(ctx.pick(15, 100), len(gen_cmds))):
         text = "#!/bin/cat\n" + c["_text"].lstrip("\n ")      # printed, never interpreted
         prep, eof, wrapped, _r, _rw = cc.real(text, "EOF")
         shell = rng.choice(sh.shells)
@@ -832,7 +847,7 @@ def run(ctx: Ctx) -> None:
         sh_printed += 1
         ctx.count_impl_trace()
         if kept != (prep + "\n").encode() or out != kept:
-            ctx.violation(f"{shell} wrote {kept!r} / executed {out!r}, the command is {prep!r} (+ newline)",
+            _viol(ctx, f"{shell} wrote {kept!r} / executed {out!r}, the command is {prep!r} (+ newline)",
                           {"kind": "cmd", "text": text, "prefix": "EOF", "source": "sh-generated"})
     ctx.note("sh_runs", {"wrappers_executed": sh_runs, "printed_by_the_command_itself": sh_printed,
                          "shells": sh.shells})
@@ -841,7 +856,7 @@ def run(ctx: Ctx) -> None:
     e2e_in_sets = [[], [s31], [s42], [s31, s42], [s42, s31], [s31, s22], [d42], [s31, d42]]
     e2e_leaf_out = [lid(K_STDOUT, 0, 0), lid(K_STAGE, 5, 7), lid(K_STAGE, 6, 8), lid(K_FILE, 0, 9), lid(K_PLAIN, 0, 1),
                     lid(K_SDIR, 6, 8)]
-    n_e2e = ctx.pick(16, 160)
+    n_e2e = ctx.pick(6, 80)
     e2e_done = 0
     for k in range(n_e2e):
         ins = {"k": "list", "t": 0, "y": [], "x": [leaf(i) for i in rng.choice(e2e_in_sets)]}
@@ -892,7 +907,7 @@ def run(ctx: Ctx) -> None:
     trace_batch.append(bad)
     controls["body"] = len(trace_batch)
     src = next(c for c in trace_batch if c["kind"] == "io" and c["segs"]
-               and any(s["k"] == "unstage" for s in c["segs"]))
+               and [s["k"] for s in c["segs"]].count("unstage") == 1)
     bad = copy.deepcopy(src)
     j = next(i for i, s in enumerate(bad["segs"]) if s["k"] == "unstage")
     bad["segs"].insert(0, bad["segs"].pop(j))        # unstaged before the command ran
@@ -922,8 +937,9 @@ def run(ctx: Ctx) -> None:
                 "terminator": gsample["_eof"]})
     gsample = next((c for c in trace_batch if c["kind"] == "io" and c.get("_rep")), None)
     if gsample:
-        ctx.sample({"source": "script() on a Scheduler", "ins": gsample["ins"], "outs": gsample["outs"],
-                    "result": gsample["res"]})
+        ctx.sample({"source": "script() on a Scheduler", "command": gsample["_command"][:300],
+                    "ins": json.dumps(gsample["ins"]), "outs": json.dumps(gsample["outs"]),
+                    "result": json.dumps(gsample["res"])})
 
     st.done("tlc_trace_validation")
     # ---- 7. model-level controls: each law fails for the mutated model -------------------------
@@ -942,11 +958,6 @@ def run(ctx: Ctx) -> None:
                                  gen_cfg("cmd", 3, False, dsh_len, emit=False, invs=("EofLoopBound",), spec="GFair",
                                          props=("Terminates",)), ctx.scratch, workers=4, env=JVM_LONG, timeout=1200),
                          "Script_Gen liveness (the loop terminates)")
-        ctx.add_tlc(r)
-        # five-line commands over the small alphabet
-        r = expect_clean(run_tlc("seq/Script_Gen.tla", gen_cfg("cmd", 5, False, dsh_len, emit=False),
-                                 ctx.scratch, env=JVM_LONG, timeout=2400, heap="8g"),
-                         "Script_Gen, commands of up to 5 lines")
         ctx.add_tlc(r)
     st.done("tlc_model_controls_and_deeper_runs")
 
@@ -967,7 +978,7 @@ def replay(ctx: Ctx, rec: dict) -> None:
         a = Abs(c["_prefix"])
         bad = cc.heredoc_law(a, c["_prep"], c["_eof"], c["_wrapped"])
         if bad:
-            ctx.violation(f"get_wrapped_command({c['_prep']!r}): {bad}", r)
+            _viol(ctx, f"get_wrapped_command({c['_prep']!r}): {bad}", r)
         v, iv = validate(ctx, [c], "replay")
         judge(ctx, [c], v, iv)
     elif r.get("kind") == "io":
